@@ -277,9 +277,9 @@ pub fn run(tier: Tier) -> i32 {
     let mut ctx = Ctx::new("C05", tier);
     let pre = preflight();
     let seed = ctx.seed;
-    let per = tier.n(5000, 32_000);
+    let per = tier.n(5000, 200_000);
     let mut tally = ctx.par(32, |s| shard(seed, s, per));
-    let c = ctx.par(8, |s| containers(seed, s, tier.n(500, 20_000)));
+    let c = ctx.par(8, |s| containers(seed, s, tier.n(2000, 200_000)));
     tally.merge(c);
     if let Err(e) = &pre {
         tally.inconclusive.push(e.clone());
